@@ -328,7 +328,7 @@ def check_fourier(ctx, snap, dt, target, even, result):
     if at_old_nyquist:
         ctx.observe(prefix + 'judged with energy exactly at the old Nyquist frequency (cosine reading)')
     skip = 1e-15 * scale
-    n_harm = int(np.count_nonzero(np.sqrt(np.abs(a[:Ks + 1]) ** 2 + np.abs(b[:Ks + 1]) ** 2) > skip))
+    n_harm = int(np.count_nonzero(np.hypot(np.abs(a[:Ks + 1]), np.abs(b[:Ks + 1])) > skip))
     if n_harm * len(y) > ORACLE_BUDGET:
         ctx.observe(prefix + 'reference too expensive: harmonics x output samples > %g (not judged)' % ORACLE_BUDGET)
         return True
@@ -737,7 +737,18 @@ def make_record(rng, n, scales=True):
         x, cls = gen.record(rng, n, cls=cls)
     if scales:
         r = rng.random()
-        if r < 0.10:
+        if r > 0.91 and np.ptp(x) > 0:
+            # extreme but valid scales (every value a finite double, squares / products of two samples under- or overflow):
+            # uniformly tiny / huge, 1e-150 next to 1e150 in one record, ripple on a baseline closer than float32
+            # resolution, counts above 2**24
+            if r > 0.955:
+                m = float(np.max(np.abs(x)))
+                e = float(rng.uniform(165, 300))
+                x, cls = x / m * 10.0 ** (e if rng.random() < 0.5 else -e), cls + '/extreme-scale'
+            else:
+                x, sfx = gen.special_scale(rng, x)
+                cls = cls + '/special' + sfx
+        elif r < 0.10:
             x, cls = x * 10.0 ** rng.uniform(-12, 12), cls + '*amp(1e-12..1e12)'
         elif r < 0.15:
             m = float(np.max(np.abs(x))) or 1.0
@@ -858,8 +869,13 @@ def drive_interp(eqsig, ctx, rng, dt, target, fam, n, even, c, form=None):
     elif c % 8 == 1 and target < dt and dt / target <= 12 and n <= 400:
         mode = 'consumer'
     vals = x
+    special = ('/extreme-scale' in rcls) or ('/special' in rcls)
     if form is None and rng.random() < 0.3:
         form = FORMS[int(rng.integers(len(FORMS)))]
+    if special and form in ('f32', 'list-int', 'list-mixed') + tuple(INT_FORMS):
+        form = ['list', 'tuple', 'view-stride2', 'readonly'][int(rng.integers(4))]   # no float32 / int at these scales
+    if special:
+        ctx.observe('workload extreme/special scale: ' + rcls.split('/', 1)[1])
     if form is not None:
         vals = make_form(rng, x, form)
     xv = np.asarray(vals, dtype=float)
@@ -944,6 +960,15 @@ def synth_bandlimited(rng, N, Kmax, mode, scales=True):
             amp = 10.0 ** rng.uniform(-12, 12)
         elif r < 0.40 and ks:
             a[0] = 10.0 ** rng.uniform(1, 3) * (1.0 if rng.random() < 0.5 else -1.0)       # offset on a smaller signal
+        elif r < 0.48:
+            e = float(rng.uniform(165, 295))                                               # extreme but valid scales
+            amp = 10.0 ** (e if rng.random() < 0.5 else -e)
+        elif r < 0.52 and ks:
+            a[0] = 10.0 ** rng.uniform(0, 12) * (1.0 if rng.random() < 0.5 else -1.0)      # ripple on a large baseline
+            sc_ = abs(a[0]) * 10.0 ** (-rng.uniform(6, 9))
+            for k in ks:
+                a[k] *= sc_
+                b[k] *= sc_
     a *= amp
     b *= amp
     K = ks[-1] if ks else 0
